@@ -8,8 +8,9 @@ PROP = dict(
     harness_bin="c36",
     mismatch_is_violation=True,
     rule="host calls through the bindings that abra_core::generate_host_function_enum generates (run by the build script of "
-         "harness/c36gen on every build) for a fixed signature file: 54 #host functions of arity 0-4 over int, float, bool, "
-         "string, void, option, result, array, tuples of width 2-4, three #host structs (two void fields) and two #host enums "
+         "harness/c36gen on every build) for a fixed signature file: 62 #host functions of arity 0-4 over int, float, bool, "
+         "string, void, option, result, array, tuples of width 2-4 and 5, 7, 12, seven #host structs (void fields) and four #host enums, five of them declared in "
+         "other modules that the host file imports in all four import forms (`use m`, `use m.(x)`, `use m except x`, `use m as p`: D95 regression), "
          "(bare, one-field, two-field and array payload variants), nested to depth 3; per signature (quick) 7 / (thorough) 120 "
          "cases with seeded random argument values (written as Abra literals; in 2 of 5 cases half of all arrays, strings and options are empty/none so that empty values sit beside non-empty siblings among the arguments and inside arrays, tuples and structs) and an independent random result value (incl. "
          "non-finite floats, empty arrays, multibyte strings); each case is one Abra program compiled and run by the real "
@@ -25,8 +26,12 @@ PROP = dict(
         "VM heap objects are treated as immutable trees (object identity, allocation and collection are outside this property)",
     ],
     assumptions=[
+        "generated bindings are embedded with `pub use generated::*;` at the crate root; two probes (reported as known-finding ids, see coverage.notes) "
+        "record that with the private `use generated::*;` of /repo/e2e_tests/test_host_funcs the code generated for `use m as p` does not compile (E0365) and that two "
+        "#host types of one name in two modules give ambiguous Rust names (E0659, name_of_ty drops the qualifier)",
+        "1-tuples are not expressible as Abra host signatures and are not exercised",
         "signatures are built from the supported types only (functions, polymorphic and wildcard types are rejected by name_of_ty with a *NotSupported name)",
-        "the quantifier over signatures is carried by the induction on types in the theorems; the correspondence samples it on the fixed 54-signature file",
+        "the quantifier over signatures is carried by the induction on types in the theorems; the correspondence samples it on the fixed 62-signature file",
     ],
     design_ref="DESIGN.md §6 C36",
     level_text="Theorems by induction on the type, for all values and all stacks, about a model of VmType::{to_vm,from_vm}, the generated #host struct/enum "
